@@ -449,6 +449,8 @@ Section Interp.
 
     (* MaskedIntReg (bit arithmetic: model/BitField.v) *)
     Definition field_norm (len endian lsb msb : Z) : outcome (Z * Z) :=
+      (* BitMask::lsb: `reg_byte_len * 8` on the usize image of the length (overflow check) *)
+      if 18446744073709551616 <=? 8 * (len mod 18446744073709551616) then Panic else
       let? l := norm_bit len endian lsb in
       let? m := norm_bit len endian msb in
       if m <? l then Panic else Ok (l, m).
